@@ -335,17 +335,18 @@ def judge(ctx, case):
             if aes.cbc_decrypt(key, iv, aes.cbc_encrypt_raw(key, iv, p)) is not None:
                 continue  # accidentally valid padding
             ct = aes.cbc_encrypt_raw(key, iv, p)
-            r = ctx.call({"op": "aes", "mode": mode, "dir": "dec", "key": case["key"], "iv": case["iv"], "msg": ct.hex()})
-            ctx.ev()
-            ctx.hit("bad_pad")
-            if "err" not in r:
-                ctx.viol("%s decryption accepts ciphertext with invalid PKCS#7 padding" % mode, {"tail": p[-16:].hex(), "resp": str(r.get("ok", r.get("panic")))[:100]})
+            for vi in (False, True):  # both public entry points: AES::decrypt and its *_impl twin
+                r = ctx.call({"op": "aes", "mode": mode, "dir": "dec", "key": case["key"], "iv": case["iv"], "msg": ct.hex(), "via_impl": vi})
+                ctx.ev()
+                ctx.hit("bad_pad")
+                if "err" not in r:
+                    ctx.viol("%s decryption accepts ciphertext with invalid PKCS#7 padding%s" % (mode, " (decrypt_impl)" if vi else ""), {"tail": p[-16:].hex(), "resp": str(r.get("ok", r.get("panic")))[:100]})
     elif k == "badlen":
         ctx.hit("bad_len")
         if case.get("junk"):
             ctx.hit("valid_ciphertext_plus_junk")
         ctx.nontrivial()
-        r = ctx.call({"op": "aes", "mode": mode, "dir": "dec", "key": case["key"], "iv": case["iv"], "msg": case["ct"]})
+        r = ctx.call({"op": "aes", "mode": mode, "dir": "dec", "key": case["key"], "iv": case["iv"], "msg": case["ct"], "via_impl": bool(len(case["ct"]) & 2)})
         ctx.ev()
         if "err" not in r:
             ctx.viol("%s decryption accepts ciphertext of invalid length (%s)" % (mode, "zero" if not case["ct"] else "valid ciphertext followed by extra bytes" if case.get("junk") else "not a multiple of 16"), {"len": len(case["ct"]) // 2, "resp": str(r.get("ok", r.get("panic")))[:100]})
